@@ -446,7 +446,7 @@ pub fn run_check(meta: &CheckMeta, tier: Tier) -> i32 {
     let mut probe_fail = false;
     for p in &meta.required_probes {
         // a run that stops at violations legitimately reaches less; probes gate clean runs only
-        if m.violations.is_empty() && m.counters.get(*p).copied().unwrap_or(0) == 0 {
+        if m.violations.is_empty() && scale >= 100 && m.counters.get(*p).copied().unwrap_or(0) == 0 {
             println!("HARNESS-ERROR probe '{}' never fired: workload does not reach it", p);
             probe_fail = true;
         }
@@ -502,12 +502,14 @@ pub fn run_check(meta: &CheckMeta, tier: Tier) -> i32 {
         "violations": new_violations,
         "known_findings_hit": known_hit.len(),
     });
-    let ev_dir = Path::new(VERIF).join("evidence");
-    std::fs::create_dir_all(&ev_dir).ok();
-    let evp = ev_dir.join(format!("{}.json", meta.prop));
-    let mut f = std::fs::File::create(&evp).expect("create evidence");
-    f.write_all(serde_json::to_string_pretty(&evidence).unwrap().as_bytes())
-        .expect("write evidence");
+    if std::env::var("VERIF_NO_EVIDENCE").is_err() {
+        let ev_dir = Path::new(VERIF).join("evidence");
+        std::fs::create_dir_all(&ev_dir).ok();
+        let evp = ev_dir.join(format!("{}.json", meta.prop));
+        let mut f = std::fs::File::create(&evp).expect("create evidence");
+        f.write_all(serde_json::to_string_pretty(&evidence).unwrap().as_bytes())
+            .expect("write evidence");
+    }
     println!(
         "{} {}: runs={} executions={} distinct={} steps={} transcript={:016x} wall={:.1}s violations={} known={}",
         meta.prop,
